@@ -165,7 +165,7 @@ def impl_load(raw, data_file, exp_name=None, rerun=False, run_filter=None, argv=
     import rebench.persistence as pers
     watch = watch or data_file
     if watch != "*":
-        watch = os.path.abspath(watch)       # one file, however the configuration spells its name
+        watch = os.path.realpath(watch)       # one file, however the configuration spells its name or links to it
     res = Loaded()
     orig = RunId.loaded_data_point
     orig_load = pers._FilePersistence.load_data
@@ -178,12 +178,12 @@ def impl_load(raw, data_file, exp_name=None, rerun=False, run_filter=None, argv=
         return orig(self, dp, warmup)
 
     def load_hook(self, runs, discard):
-        cur["file"] = os.path.abspath(self._data_filename)
+        cur["file"] = os.path.realpath(self._data_filename)
         try:
             return orig_load(self, runs, discard)
         finally:
             cur["file"] = None
-            if os.path.abspath(self._data_filename) == watch:
+            if os.path.realpath(self._data_filename) == watch:
                 res.ids = dict(self._run_ids_in_file)
                 res.id_list = list(self._id_to_run_id)
     RunId.loaded_data_point = hook
